@@ -11,7 +11,7 @@ from ..ring import Q, _pmul, _padd
 from .. import kd
 
 ID = "C17"
-VARS = ["a", "a1", "a12", "a2", "b", "b1", "b12", "b2", "c", "ab"]
+VARS = ["a", "a1", "a12", "a2", "b", "b1", "b12", "b2", "c", "ab", "E", "I"]     # E, I: scalar coefficients of multivectors named E / I
 RULE = ("case = an expression tree (<= 14 nodes) over kingdon's RationalPolynomial (or, in 'poly' mode, Polynomial) objects built "
         "only through what code generation uses: fromname / list constructors, + - * /, unary -, **n (n >= 1; negative for "
         "RationalPolynomial), augmented assignment (+=, -=, *=) on an accumulator, inv(), ints and dyadic floats on either side, division by ints; variable names as code "
